@@ -208,6 +208,37 @@ def main(pid, tier, seed):
                                 'chosen': chosen})
                 meta[tid] = {'ruleset': desc['base'], 'sweep': [what, p, bp], 'draws': draws_t, 'chosen': chosen, 'error': err,
                              'lists': {t: desc['lists'].get(t) for t in reps_of(want_struct)}}
+        # ---- the same walk under --skip_brute: the Markov structure is gone and the others are rescaled by 1 / (1 - P(M)),
+        # ---- wherever the Markov line stands in the file: structure i owns (Cum(i-1), Cum(i)] / (D - w_M)
+        wm = sum(w for s_, w in desc['base'] if s_ == 'M')
+        nonm = [(s_, w) for s_, w in desc['base'] if s_ != 'M']
+        if wm and nonm:
+            pcfg_sb = ptq.load_pcfg(d, skip_brute=True)
+            Dp = D - wm
+            cum = 0
+            pts = set()
+            for s_, w in nonm:
+                lo, cum = cum, cum + w
+                for x in (lo * R // Dp + 2, (2 * lo + w) * R // (2 * Dp), cum * R // Dp - 2):
+                    if 0 <= x < R:
+                        pts.add(x)
+            order_sb = [s_ for s_, _ in nonm]
+            for t_ in sorted(pts):
+                sc = Script([t_ / R] + [0.0] * 8)
+                real = scripted(pg, sc)
+                try:
+                    pt_item = pcfg_sb.random_walk()
+                    err = None
+                except Exception as ex:
+                    pt_item, err = None, repr(ex)
+                finally:
+                    pg.random = real
+                cstruct = ''.join(t for t, _ in pt_item['pt'] if t[0] != 'C') if pt_item and pt_item['pt'] else None
+                tid += 1
+                wtraces.append({'tid': tid, 'kind': 'walk', 'D': Dp, 'R': R, 'base': [{'w': w, 'n': 1} for _, w in nonm], 'pos': [],
+                                'draws': [t_], 'chosen': [order_sb.index(cstruct) + 1 if cstruct in order_sb else 0]})
+                meta[tid] = {'ruleset': desc['base'], 'sweep': ['base under --skip_brute', None, t_], 'draws': [t_],
+                             'chosen': cstruct, 'error': err, 'lists': {}}
         # ---- words: scripted in-group choices ----
         fileprobs = expand.file_prob_ranks(d, pcfg)
         for b, pt in expand.all_pts(pcfg):
